@@ -158,6 +158,9 @@ func (h *hist) clock(d, ms int) {
 	if d < h.d || (d == h.d && ms < h.ms) {
 		return
 	}
+	if d > 36500 { // golib's calendar table ends with 2099 (C19's subject)
+		return
+	}
 	h.d, h.ms = d, ms
 	dateutil.SyncTimeMillis = vtime(d, ms)
 	h.t.Emit(core.Ev{"ev": "Clock", "d": d, "ms": ms})
@@ -893,7 +896,7 @@ func genBurst(c *core.Ctx, t *core.Trace, gen string, cas int, G, N int, withCyc
 				if len(st) > 20 {
 					st = st[:20]
 				}
-				ce["em"], ce["stamp"], ce["g"], ce["seq"] = true, core.Cp(st), e.g, e.seq
+				ce["em"], ce["stamp"], ce["g"], ce["seq"], ce["raw"] = true, core.Cp(st), e.g, e.seq, core.Cp(e.raw)
 				seqEv = append(seqEv, ce)
 				if e.seq > done[e.g] {
 					done[e.g] = e.seq
